@@ -550,6 +550,54 @@ theorem runSched_length {α : Type} (sched : List Nat) : ∀ (st : PState W α),
   | nil => intro st; rfl
   | cons i is ih => intro st; exact (ih _).trans (pstep_length st i)
 
+/-- all finished threads flushed, one after the other -/
+theorem flush_all {α : Type} {bi : Int} {Post : Nat → Local W → α → Prop} {B0 : List Bind} {R0 : List Role} {st : PState W α}
+    (h : Covered bi Post B0 R0 st) :
+    ∃ G Ls, GInv bi B0 R0 st.threads.length st.reg G Ls ∧ ∀ t a, st.threads[t]? = some (.done a) → Post t (Ls t) a := by
+  obtain ⟨G, Ls, hg, hv⟩ := h.ex
+  suffices hk : ∀ k, k ≤ st.threads.length → ∃ G Ls, GInv bi B0 R0 st.threads.length st.reg G Ls ∧
+      (∀ t a, t < k → st.threads[t]? = some (.done a) → Post t (Ls t) a) ∧
+      (∀ t p, k ≤ t → st.threads[t]? = some p → PValid bi (Post t) (Ls t) p) by
+    obtain ⟨G', Ls', hg', h1, _⟩ := hk _ (Nat.le_refl _)
+    refine ⟨G', Ls', hg', fun t a ht => h1 t a ?_ ht⟩
+    rcases Nat.lt_or_ge t st.threads.length with h' | h'
+    · exact h'
+    · rw [List.getElem?_eq_none h'] at ht; cases ht
+  intro k
+  induction k with
+  | zero => intro _; exact ⟨G, Ls, hg, fun _ _ h0 => absurd h0 (Nat.not_lt_zero _), fun t p _ hp => hv t p hp⟩
+  | succ k ih =>
+    intro hk
+    obtain ⟨G1, Ls1, hg1, hd1, hv1⟩ := ih (Nat.le_of_succ_le hk)
+    have hklt : k < st.threads.length := hk
+    cases hp : st.threads[k]? with
+    | none => rw [List.getElem?_eq_getElem hklt] at hp; cases hp
+    | some p =>
+      by_cases hdone : ∃ a, p = .done a
+      · obtain ⟨a, rfl⟩ := hdone
+        obtain ⟨G2, L2, hg2, hpost⟩ := flush hklt (hv1 k _ (Nat.le_refl _) hp) rfl hg1 rfl
+        refine ⟨G2, upd Ls1 k L2, hg2, ?_, ?_⟩
+        · intro t a' ht hta
+          by_cases htk : t = k
+          · subst htk
+            rw [hp] at hta
+            cases hta
+            rw [upd_same]; exact hpost
+          · rw [upd_other _ _ htk]; exact hd1 t a' (by omega) hta
+        · intro t q ht hq
+          rw [upd_other _ _ (by omega)]; exact hv1 t q (by omega) hq
+      · refine ⟨G1, Ls1, hg1, ?_, fun t q ht hq => hv1 t q (by omega) hq⟩
+        intro t a' ht hta
+        by_cases htk : t = k
+        · subst htk
+          rw [hp] at hta
+          cases hta
+          exact absurd ⟨a', rfl⟩ hdone
+        · exact hd1 t a' (by omega) hta
+
+/-- the view a thread starts with: the bindings of the pool -/
+def view0 (P : List (Genome W)) : Local W := ⟨binds P, roles P, [], [], []⟩
+
 /-! ### counters never fall, records are never removed -/
 
 theorem step_mono {α : Type} (p : Prog W α) (reg : Reg W) :
